@@ -86,7 +86,21 @@ fn parse_shape_reused(d: &dyn Dialect, prev: &str, sql: &str) -> Option<String> 
 
 pub fn oracle(seed: u64, tier: &str) -> Vec<Report> {
     let mut r = Report::new("C04", "oracle.infix-climb", "for each dialect, every operator spelling that parses `a OP b` to a plain binary node: ALL ordered pairs and (quick: a seeded third; thorough: all) triples `a o1 b o2 c o3 d` — the real tree's bracketing must equal classic left-associative precedence climbing over the binding powers the dialect publishes through get_next_precedence, on a fresh parser and on a parser object re-targeted with try_with_sql after an earlier (failed or successful) parse; plus set-operation chains over UNION/EXCEPT/INTERSECT (levels 10/10/20). non-trivial = distinct (dialect, operator tuple) with at least two different levels");
-    let ds = all_dialects();
+    let mut ds = all_dialects();
+    // user-defined dialects that publish their own binding powers (everything else forwarded to the
+    // generic dialect; `get_next_precedence_default` is the trait's own body): grouping must follow
+    // the table the dialect PUBLISHES, whatever its values
+    {
+        use sqlparser::dialect::Precedence as P;
+        fn high_not(p: P, v: u8) -> u8 { if matches!(p, P::UnaryNot) { 35 } else { v } }
+        fn and_or_swapped(p: P, v: u8) -> u8 { match p { P::And => 5, P::Or => 10, _ => v } }
+        fn low_between_like(p: P, v: u8) -> u8 { match p { P::Between => 12, P::Like => 13, P::Is => 27, _ => v } }
+        fn flat_arith(p: P, v: u8) -> u8 { match p { P::MulDivModOp => 30, P::PlusMinus => 40, _ => v } }
+        ds.push(("custom-high-not", Box::new(crate::wrap::WrappedPrec(plain_dialect("generic"), high_not))));
+        ds.push(("custom-and-or-swapped", Box::new(crate::wrap::WrappedPrec(plain_dialect("generic"), and_or_swapped))));
+        ds.push(("custom-low-between-like", Box::new(crate::wrap::WrappedPrec(plain_dialect("generic"), low_between_like))));
+        ds.push(("custom-arith-swapped", Box::new(crate::wrap::WrappedPrec(plain_dialect("mysql"), flat_arith))));
+    }
     let mut rng = Rng(seed ^ 0xC04);
     let mut distinct = 0u64;
     let atoms = ["a", "b", "c", "d"];
